@@ -4,7 +4,7 @@
    collapse) are compiled and executed on every generated expression, under every scoping, and compared with this
    denotation. MapReduce and the debug operators are not modelled; stacking is covered under C12. *)
 Require Import List Bool ZArith.
-From FV Require Import Lib.Sym Model.C01 Model.C01Compile Model.C03 Proofs.C03 Model.C03Graph Proofs.C03GraphEval Proofs.C03GraphWf Proofs.C03GraphCompile Proofs.C03GraphPers.
+From FV Require Import Lib.Sym Model.C01 Model.C01Compile Model.C03 Proofs.C03 Model.C03Graph Proofs.C03GraphEval Proofs.C03GraphWf Proofs.C03GraphCompile Proofs.C03GraphPers Proofs.C03GraphCommit.
 Import ListNotations.
 
 (* any nesting / explicit scoping of the same operator sequence denotes the same train and apply chains *)
@@ -60,6 +60,20 @@ Theorem C03_graph_persisted : forall e a t sl,
 Proof. exact pipeline_persisted. Qed.
 Print Assumptions C03_graph_persisted.
 
+(* C03 + C01 + C04, end to end: compiled with an accessor that persists the stateful apply-path groups in pipeline order,
+   for every expression and every visiting order compilation succeeds, and - whenever there is anything to persist - the
+   table holds a committer whose evaluation is exactly the `persisted` list the expression denotes, state by state *)
+Theorem C03_pipeline_commits : forall e a t sl visit,
+  let gs := build e (gsource a t sl) in let s := den e (source a t sl) in
+  let gids := pers_gids e (gsource a t sl) in let l := map (fun g => (g, TNone)) gids in
+  NoDup visit -> (forall i, In i visit -> i < List.length (gnodes gs)) -> List.length visit = List.length (gnodes gs) ->
+  exists tb, bind (compile (Some l) (gnodes gs) visit) canon = Some tb
+    /\ (gids <> [] -> exists c, find_pos (fun sy => match fst sy with OCommitter => true | _ => false end) tb = Some c
+          /\ forall fuel, 2 * List.length (gnodes gs) + 4 <= fuel ->
+               eval fuel (Some l) (gnodes gs) tb c = Some (TTup (persisted s))).
+Proof. exact pipeline_commits. Qed.
+Print Assumptions C03_pipeline_commits.
+
 Example C03_graph_witness :
   let a := OpSpec (Some (Actor 5 0 true)) TSame None in
   let b := OpSpec (Some (Actor 6 1 true)) TNo (Some (Actor 7 0 false)) in
@@ -73,3 +87,10 @@ Example C03_witness :
   den (ESeq (EOp a) (EOp b)) (source 0 1 2) = den (EOp b) (den (EOp a) (source 0 1 2))
   /\ List.length (persisted (den (ESeq (EOp a) (EOp b)) (source 0 1 2))) = 2.
 Proof. vm_compute. split; reflexivity. Qed.
+
+(* the hypothesis `gids <> []` of C03_pipeline_commits is met: two stateful apply-path actors, two committed states *)
+Example C03_commits_witness :
+  let a := OpSpec (Some (Actor 5 0 true)) TSame None in
+  let b := OpSpec (Some (Actor 6 1 true)) TNo (Some (Actor 7 0 false)) in
+  List.length (pers_gids (ESeq (EOp a) (EOp b)) (gsource 0 1 2)) = 2.
+Proof. vm_compute. reflexivity. Qed.
